@@ -5,6 +5,7 @@ package gen
 import (
 	"math/rand"
 	"sort"
+	"strings"
 )
 
 // Alphabets mixing the bytes that stress half-byte and signedness handling.
@@ -183,8 +184,77 @@ func Tiny(r *rand.Rand) KeySet {
 	return KeySet{uniqSorted(m), "tiny"}
 }
 
+// DeepChain: tries deeper than 64 levels (65..260): a chain of keys each extending the previous
+// one, in two mirrored forms, so that the descent to the rightmost leaf of a left sibling and the
+// descent to the leftmost leaf of a right sibling are both long; plus keys in front and behind.
+func DeepChain(r *rand.Rand) KeySet {
+	d := 65 + r.Intn(60)
+	if r.Intn(4) == 0 {
+		d = 130 + r.Intn(130)
+	}
+	m := map[string]struct{}{}
+	a, b := "a", "b"
+	if r.Intn(3) == 0 {
+		a, b = "\x10", "\xf0"
+	}
+	switch r.Intn(3) {
+	case 0: // "a", "aa", ..., a^d : the LAST key is the deepest (rightMost descends d levels)
+		for i := 1; i <= d; i++ {
+			m[strings.Repeat(a, i)] = struct{}{}
+		}
+		m[b] = struct{}{}
+		m[b+a] = struct{}{}
+	case 1: // b^i a : the FIRST key is the deepest (leftMost descends d levels)
+		for i := 0; i <= d; i++ {
+			m[strings.Repeat(b, i)+a] = struct{}{}
+		}
+		m[a[:0]+"\x01"] = struct{}{}
+	default: // both, under a common root
+		for i := 1; i <= d; i++ {
+			m["m"+strings.Repeat(a, i)] = struct{}{}
+			m["n"+strings.Repeat(b, i)+a] = struct{}{}
+		}
+		m["l"] = struct{}{}
+		m["o"] = struct{}{}
+	}
+	return KeySet{uniqSorted(m), "deepchain"}
+}
+
+// HugeStep: 2..5 keys sharing a single-branch run of 16..32 KiB (a step of 0x8000..0xffff
+// half-bytes: the upper half of the uint16 step range), optionally behind a short fork.
+func HugeStep(r *rand.Rand) KeySet {
+	m := map[string]struct{}{}
+	run := 16384 + r.Intn(16300)
+	switch r.Intn(4) {
+	case 0:
+		run = 16384 + r.Intn(3)
+	case 1:
+		run = 32700 + r.Intn(60)
+	}
+	base := strings.Repeat(string([]byte{byte(0x41 + r.Intn(50))}), run)
+	head := ""
+	if r.Intn(2) == 0 {
+		head = "k"
+		m["a"] = struct{}{}
+		m["z"] = struct{}{}
+	}
+	n := 2 + r.Intn(4)
+	for i := 0; i < n; i++ {
+		m[head+base+string([]byte{byte(0x30 + 7*i)})+randStr(r, alphabets[0], 0, 2)] = struct{}{}
+	}
+	return KeySet{uniqSorted(m), "hugestep"}
+}
+
 // Any picks a shape class at random; sizes scale with `size` (max keys).
 func Any(r *rand.Rand, size int) KeySet {
+	if size >= 20 {
+		switch r.Intn(60) {
+		case 0, 1:
+			return DeepChain(r)
+		case 2:
+			return HugeStep(r)
+		}
+	}
 	if size >= 200 && r.Intn(12) == 0 {
 		// depth 3..: 64+ bottom nodes; larger sizes reach larger short tables
 		d := 3
